@@ -460,7 +460,11 @@ def seconds_to_midi_ticks(
         will be an integer. If the output was a numpy array, the output
         will be a numpy array with dtype int.
     """
-    midi_ticks = np.round(1e6 * ppq * time_in_seconds / mpq)
+    # (in double precision: single-precision seconds, e.g. the onset_sec
+    # column of a note array, would otherwise be multiplied in single precision)
+    midi_ticks = np.round(
+        1e6 * ppq * np.asarray(time_in_seconds, dtype=np.float64) / mpq
+    )
 
     if isinstance(time_in_seconds, np.ndarray):
         return midi_ticks.astype(int)
